@@ -935,6 +935,11 @@ def run_real(kernel, tools, nw, timeout, delays=None, flag_deps=False, threshold
         left = [c for c in children_of(me) if c[0] not in before]
     zombies = [c for c in left if c[1] == "Z"]
     left = [c for c in left if c[1] != "Z"]
+    for c in left:                                 # reported below; must not disturb the following runs
+        try:
+            os.kill(c[0], signal.SIGKILL)
+        except OSError:
+            pass
     active = [p.pid for p in multiprocessing.active_children() if p.pid not in before and p.pid not in [z[0] for z in zombies]]
     raw = rec.log.read()
     rec.log.close()
@@ -1356,13 +1361,41 @@ def run_cli_hooked(argv, nw=0, timeout=150):
             pass
         so, se = p.communicate()
         return -999, so.decode("utf-8", "replace"), "no return within %s s (killed)" % timeout, None
+    left = group_members(p.pid)
+    if left:
+        _time.sleep(0.3)
+        left = group_members(p.pid)
+    try:
+        os.killpg(p.pid, signal.SIGKILL)          # whatever the CLI left behind
+    except OSError:
+        pass
     p.stdout_text = so
     err = se.decode("utf-8", "replace")
     hook = None
     for line in err.splitlines():
         if line.startswith("@@LCDS "):
             hook = json.loads(line[7:])
+    if hook is not None:
+        hook["left"] = left
     return p.returncode, so.decode("utf-8", "replace"), err, hook
+
+
+def group_members(pgid):
+    """live (non-zombie) processes of process group pgid"""
+    out = []
+    for d in os.listdir("/proc"):
+        if not d.isdigit():
+            continue
+        try:
+            with open("/proc/%s/stat" % d) as f:
+                s = f.read()
+        except OSError:
+            continue
+        r = s.rfind(")")
+        f = s[r + 2:].split()
+        if int(f[2]) == pgid and f[0] != "Z":
+            out.append((int(d), f[0]))
+    return out
 
 
 LCD_WARNING = "WARNING: LCD analysis timed out"
@@ -1395,6 +1428,10 @@ def _guarded(fn, item, conn):
                    "machinery": "%s: %s\n%s" % (type(e).__name__, e, traceback.format_exc())})
     finally:
         conn.close()
+        try:
+            os.killpg(os.getpgid(0), signal.SIGKILL)   # nothing the job started may outlive it (orphaned workers)
+        except OSError:
+            pass
 
 
 def pool_map(fn, items, procs, deadline=240.0):
